@@ -337,6 +337,7 @@ def pmClose (s : Sec) (fl : List Bool) : StepOut :=
   let p := (Run.mk s.page fl [] false).call s.id (.protect .rw) false
   if !p.1 then { res := .err, sec := { s with page := p.2.page }, evs := p.2.evs, rest := p.2.fl } else
   let w := p.2.wipe
+  if w.crashed then { res := .crash, sec := { s with page := w.page }, evs := w.evs, rest := w.fl } else
   let u := w.call s.id .unlock false
   if !u.1 then { res := .err, sec := { s with page := u.2.page }, evs := u.2.evs, rest := u.2.fl } else
   let f := u.2.call s.id .free false
@@ -346,6 +347,7 @@ def pmClose (s : Sec) (fl : List Bool) : StepOut :=
 /-- memguard: `s.buffer.Destroy()` (panics on failure) then InUseCounter.Dec. -/
 def mgClose (s : Sec) (fl : List Bool) : StepOut :=
   let d := mgDestroy s.id (Run.mk s.page fl [] false)
+  if d.2.crashed then { res := .crash, sec := { s with page := d.2.page }, evs := d.2.evs, rest := d.2.fl } else
   if !d.1 then { res := .panic, sec := { s with page := d.2.page }, evs := d.2.evs, rest := d.2.fl }
   else { res := .ok, sec := { s with page := d.2.page, closed := true }, evs := d.2.evs ++ [.inuseDec], rest := d.2.fl }
 
@@ -606,6 +608,7 @@ def closeStep (st : CState) (tid : Nat) (t : Thread) (s : Sec) (fl : List Bool) 
   | some o =>
     { st with sec := o.sec, threads := st.threads.set tid { t with wait := none },
               panicked := st.panicked || o.res == .panic,
+              crashed := st.crashed || o.res == .crash,
               closeRets := st.closeRets + (if o.res == .ok then 1 else 0),
               inuse := st.inuse + inuseDelta o.evs }
 
